@@ -1,8 +1,9 @@
 package main
 
 import (
-	"os"
+	"encoding/hex"
 	"fmt"
+	"os"
 	"strings"
 	"sync"
 
@@ -183,7 +184,21 @@ func c06Deviation(evs []AEv, msg string) string {
 		}
 		return false
 	}
+	fwdRefAsNodeValue := false
+	{
+		marked := map[string]bool{}
+		for i, e := range evs {
+			if e.M == "OnMarker" {
+				marked[e.ID] = true
+			}
+			if e.M == "OnReferenceLocal" && !marked[e.ID] && i > 0 && evs[i-1].M == "OnNode" {
+				fwdRefAsNodeValue = true
+			}
+		}
+	}
 	switch {
+	case fwdRefAsNodeValue && in("changes the data") && in("node null"):
+		return "forward-reference-as-node-value-dropped"
 	case (arr("abit") || arr("auid") || arr("rref")) && in("Typed array support"):
 		return "untyped-typed-array-todo"
 	case in("interfaceBuilder.BuildFromLocalReference", "interfaceBuilder.BuildBeginMarker"):
@@ -217,6 +232,7 @@ func checkC06(c *Check) {
 	mcfg.Iterator.RecursionSupport = true
 	var mu sync.Mutex
 	seenDev := map[string]int{}
+	checkDoc := c06CheckDoc(c, &mu, seenDev, mcfg)
 	forCorpus(c, docs, reps, concOpts{Chunk: true}, func(abs corpusDoc, evs []AEv, cfg *configuration.Configuration) {
 		for _, e := range evs {
 			if e.M == "OnCustomBinary" || e.M == "OnCustomBegin" {
@@ -234,81 +250,113 @@ func checkC06(c *Check) {
 			if rej >= 0 {
 				continue
 			}
-			// the property is about documents the decoder with rules accepts (what the encoders
-			// produce is C01 / C02's subject)
-			recPre := &Recorder{}
-			var perr error
-			if format == "cbe" {
-				perr = ce.NewCBEDecoder(cfg).DecodeDocument(doc, ce.NewRules(recPre, cfg))
-			} else {
-				perr = ce.NewCTEDecoder(cfg).DecodeDocument(doc, ce.NewRules(recPre, cfg))
-			}
-			if perr != nil {
-				continue
-			}
-			origToks, err := resolveTokens(normStream(recPre.Evs, normOpts{DropComments: true, DropPadding: true}))
-			if err != nil {
-				continue
-			}
-			want := strings.Join(sortMapsInTokens(origToks), " ")
-			if os.Getenv("VERIF_C06_DEBUG") != "" && strings.Contains(evsString(evs), "Int=") && strings.Contains(evsString(evs), "ReferenceLocal#\"a\" Marker#\"a\"") {
-				fmt.Println("DEBUG", format, evsString(evs), "WANT", want)
-			}
-			key := fmt.Sprint(abs.H) + evsString(evs) + format
-			c.Count(key, len(evs) > 4)
-			var v interface{}
-			var uerr error
-			p, hung := runWithWatchdog(watchdogShort, func() {
-				if format == "cbe" {
-					v, uerr = ce.UnmarshalFromCBEDocument(doc, nil, cfg)
-				} else {
-					v, uerr = ce.UnmarshalFromCTEDocument(doc, nil, cfg)
-				}
-			})
-			wit := map[string]interface{}{"kind": "untyped", "format": format, "events": evs, "doc": printable(doc)}
-			report := func(msg string) {
-				if d := c06Deviation(evs, msg); d != "" && c.Finding(d) {
-					mu.Lock()
-					seenDev[d]++
-					mu.Unlock()
-					return
-				}
-				c.Violation(msg, wit)
-			}
-			if p != nil || hung || uerr != nil {
-				report(fmt.Sprintf("a valid %s document cannot be unmarshaled untyped: %v %v hang=%v; stream %s", format, uerr, p, hung, evsString(evs)))
-				continue
-			}
-			if hasCycle(evs) {
-				c.AddTraces(1)
-				continue
-			}
-			var back []byte
-			var merr error
-			p, hung = runWithWatchdog(watchdogShort, func() { back, merr = ce.MarshalToCBEDocument(v, mcfg) })
-			if p != nil || hung || merr != nil {
-				report(fmt.Sprintf("the value unmarshaled from a valid %s document cannot be marshaled again: %v %v hang=%v; stream %s; value %s", format, merr, p, hung, evsString(evs), absValue(v)))
-				continue
-			}
-			rec := &Recorder{}
-			if derr := ce.NewCBEDecoder(cfg).DecodeDocument(back, ce.NewRules(rec, cfg)); derr != nil {
-				report(fmt.Sprintf("re-marshaled document does not decode: %v; stream %s", derr, evsString(evs)))
-				continue
-			}
-			gotToks, err := resolveTokens(normStream(rec.Evs, normOpts{DropComments: true, DropPadding: true}))
-			if err != nil {
-				report(fmt.Sprintf("re-marshaled stream is malformed: %v", err))
-				continue
-			}
-			got := strings.Join(sortMapsInTokens(gotToks), " ")
-			if got != want {
-				report(fmt.Sprintf("untyped unmarshal of a %s document changes the data: expected [%s], value marshals back as [%s]; stream %s; value %s", format, want, got, evsString(evs), absValue(v)))
-				continue
-			}
-			c.AddTraces(1)
-			if len(evs) > 7 {
-				c.Sample(map[string]interface{}{"stream": evsString(evs), "format": format, "value": absValue(v)})
-			}
+			checkDoc(format, doc, evs, fmt.Sprint(abs.H), cfg)
 		}
 	})
+	// documents of shapes that lie beyond the corpus length bound: several record types, references in
+	// node / edge / map positions, markers on containers that hold references
+	for i, text := range []string{
+		"c0\n@a<\"x\">\n@b<\"y\" \"z\">\n[@a{1} @b{2 3} @a{4}]",
+		"c0\n@a<\"p\" \"q\" \"r\">\n@b<\"y\">\n@c<\"k1\" \"k2\">\n[@a{1 2 3} @b{4} @c{5 6} @a{7 8 9}]",
+		"c0\n@a<1 2>\n@b<\"y\">\n{\"k\" = @a{\"u\" \"v\"} \"l\" = @b{@a{3 4}}}",
+		"c0\n[($a 1) &a:2]",
+		"c0\n[(1 $a) &a:2]",
+		"c0\n[&a:2 ($a 1) (1 $a $a)]",
+		"c0\n{\"k\" = $a \"l\" = &a:[1 2] \"m\" = $a}",
+		"c0\n[&a:[1 2] {\"k\" = $a} ($a)]",
+		"c0\n[$a $b &a:\"one\" &b:\"two\" $a $b]",
+		"c0\n[&a:{\"k\" = &b:[1]} $a $b]",
+		"c0\n[[$a] [[$a]] &a:\"deep\"]",
+	} {
+		cfg := configuration.New()
+		checkDoc("cte", []byte(text), nil, fmt.Sprintf("targeted%d", i), cfg)
+		if r := convertCTEtoCBE([]byte(text), cfg); r.bad() == "" {
+			checkDoc("cbe", r.Out, nil, fmt.Sprintf("targeted%d", i), cfg)
+		}
+	}
+}
+
+// c06CheckDoc returns the per-document check: decode with rules (precondition), unmarshal untyped,
+// marshal again, decode, compare the resolved data.
+func c06CheckDoc(c *Check, mu *sync.Mutex, seenDev map[string]int, mcfg *configuration.Configuration) func(format string, doc []byte, evs []AEv, keyPrefix string, cfg *configuration.Configuration) {
+	return func(format string, doc []byte, evs []AEv, keyPrefix string, cfg *configuration.Configuration) {
+		// the property is about documents the decoder with rules accepts (what the encoders
+		// produce is C01 / C02's subject)
+		recPre := &Recorder{}
+		var perr error
+		if format == "cbe" {
+			perr = ce.NewCBEDecoder(cfg).DecodeDocument(doc, ce.NewRules(recPre, cfg))
+		} else {
+			perr = ce.NewCTEDecoder(cfg).DecodeDocument(doc, ce.NewRules(recPre, cfg))
+		}
+		if perr != nil {
+			return
+		}
+		if evs == nil {
+			evs = recPre.Evs
+		}
+		origToks, err := resolveTokens(normStream(recPre.Evs, normOpts{DropComments: true, DropPadding: true}))
+		if err != nil {
+			return
+		}
+		want := strings.Join(sortMapsInTokens(origToks), " ")
+		if os.Getenv("VERIF_C06_DEBUG") != "" && strings.Contains(evsString(evs), "Int=") && strings.Contains(evsString(evs), "ReferenceLocal#\"a\" Marker#\"a\"") {
+			fmt.Println("DEBUG", format, evsString(evs), "WANT", want)
+		}
+		key := keyPrefix + evsString(evs) + format + hex.EncodeToString(doc)
+		c.Count(key, len(evs) > 4)
+		var v interface{}
+		var uerr error
+		p, hung := runWithWatchdog(watchdogShort, func() {
+			if format == "cbe" {
+				v, uerr = ce.UnmarshalFromCBEDocument(doc, nil, cfg)
+			} else {
+				v, uerr = ce.UnmarshalFromCTEDocument(doc, nil, cfg)
+			}
+		})
+		wit := map[string]interface{}{"kind": "untyped", "format": format, "events": evs, "doc": printable(doc)}
+		report := func(msg string) {
+			if d := c06Deviation(evs, msg); d != "" && c.Finding(d) {
+				mu.Lock()
+				seenDev[d]++
+				mu.Unlock()
+				return
+			}
+			c.Violation(msg, wit)
+		}
+		if p != nil || hung || uerr != nil {
+			report(fmt.Sprintf("a valid %s document cannot be unmarshaled untyped: %v %v hang=%v; stream %s", format, uerr, p, hung, evsString(evs)))
+			return
+		}
+		if hasCycle(evs) {
+			c.AddTraces(1)
+			return
+		}
+		var back []byte
+		var merr error
+		p, hung = runWithWatchdog(watchdogShort, func() { back, merr = ce.MarshalToCBEDocument(v, mcfg) })
+		if p != nil || hung || merr != nil {
+			report(fmt.Sprintf("the value unmarshaled from a valid %s document cannot be marshaled again: %v %v hang=%v; stream %s; value %s", format, merr, p, hung, evsString(evs), absValue(v)))
+			return
+		}
+		rec := &Recorder{}
+		if derr := ce.NewCBEDecoder(cfg).DecodeDocument(back, ce.NewRules(rec, cfg)); derr != nil {
+			report(fmt.Sprintf("re-marshaled document does not decode: %v; stream %s", derr, evsString(evs)))
+			return
+		}
+		gotToks, err := resolveTokens(normStream(rec.Evs, normOpts{DropComments: true, DropPadding: true}))
+		if err != nil {
+			report(fmt.Sprintf("re-marshaled stream is malformed: %v", err))
+			return
+		}
+		got := strings.Join(sortMapsInTokens(gotToks), " ")
+		if got != want {
+			report(fmt.Sprintf("untyped unmarshal of a %s document changes the data: expected [%s], value marshals back as [%s]; stream %s; value %s", format, want, got, evsString(evs), absValue(v)))
+			return
+		}
+		c.AddTraces(1)
+		if len(evs) > 7 {
+			c.Sample(map[string]interface{}{"stream": evsString(evs), "format": format, "value": absValue(v)})
+		}
+	}
 }
